@@ -626,3 +626,26 @@ def run(ctx):
                               mech='mapping-key-and-value-treated-differently')
 
     drive.for_each_case(ctx, 'anykeys', 10, body_anykeys, gen=lambda c, r: Ty('int'))
+
+    # a global handler registered AFTER a dataclass was first converted reaches its fields from then on (once per shard, at the end)
+    try:
+        import enum as _enum
+        E0 = _enum.Enum(f"LateE{next(_serial)}", {'RED': 'red'})
+        E0._pv_c18_late = True
+        LH = type(f"LateH{next(_serial)}", (env.PaneBase,), {'__annotations__': {'c': E0, 'cs': t.List[E0]}, 'cs': env.pfield(default_factory=list), '__module__': __name__})
+        first = [observe(LH.from_data, {'c': 'red', 'cs': ['red']}), observe(lambda: LH.from_data({'c': 'red'}).into_data()), observe(env.into_data, [E0.RED])]
+        late_conv = StampConv('late')
+        env.m_convert.register_converter_handler(lambda ty, args, *, handlers: late_conv if isinstance(ty, type) and getattr(ty, '_pv_c18_late', False) is True else NotImplemented)
+        for label, call, ok in (('Cls.from_data, field', lambda: LH.from_data({'c': 'red'}).c, lambda r: isinstance(r, Stamp) and r.source == 'late'),
+                                ('Cls.from_data, list field', lambda: LH.from_data({'c': 'red', 'cs': ['red']}).cs[0], lambda r: isinstance(r, Stamp) and r.source == 'late'),
+                                ('x.into_data(), field', lambda: LH.make_unchecked(E0.RED).into_data()['c'], lambda r: isinstance(r, list) and r[:2] == ['out', 'late']),
+                                ('into_data([member])', lambda: env.into_data([E0.RED])[0], lambda r: isinstance(r, list) and r[:2] == ['out', 'late'])):
+            o = observe(call)
+            ctx.count('late_registration_checks')
+            ctx.case(('late-registration', label, o.kind), nontrivial=True)
+            if o.kind != 'value' or not ok(o.val):
+                ctx.violation('precedence', 'late-registration', 0, {'use': label, 'outcome': o.brief()[:200], 'before_the_registration': [e.brief()[:60] for e in first]},
+                              mech='global-handler-does-not-reach-a-class-converted-before-its-registration')
+                break
+    except Exception as e:
+        ctx.crash('late-registration', 0, e)
